@@ -30,7 +30,7 @@ def Err.toString : Err → String
 
 /-! ### small numpy / dict helpers -/
 
-/-- `xs[mask]` with a boolean mask: numpy raises `IndexError` when the lengths differ. -/
+/-- `xs[mask]` with a boolean mask of the same length (`IndexError` when the lengths differ). -/
 def maskSel {α : Type} : List α → List Bool → Except Err (List α)
   | [], [] => .ok []
   | x :: xs, b :: bs =>
@@ -38,6 +38,12 @@ def maskSel {α : Type} : List α → List Bool → Except Err (List α)
       | .ok r => .ok (if b then x :: r else r)
       | .error e => .error e
   | _, _ => .error .indexError
+
+/-- numpy's rule as it is: an *empty* boolean mask is accepted on an array of any length (the result
+is empty); every other length mismatch raises `IndexError`. -/
+def maskSelNp {α : Type} (xs : List α) : List Bool → Except Err (List α)
+  | [] => .ok []
+  | b :: bs => maskSel xs (b :: bs)
 
 /-- `np.argwhere(mask).flatten()` (indices start at `i`). -/
 def whereTrue : List Bool → Nat → List Nat
@@ -570,11 +576,11 @@ def rowEntries (gps : PSet V) (row : List (Option String)) (g : List V) :
   let fx := gps.fixedMask
   let gpidxs : List Int := (List.range gps.params.length).map (fun (i : Nat) => (i : Int))
   let gflpidxs : List Int := cumsumM1 fl 0
-  match maskSel row (andM fl m), maskSel row (andM fx m),
-        maskSel m fl, maskSel m fx,
-        maskSel gflpidxs (andM fl m), maskSel gpidxs (andM fx m) with
+  match maskSelNp row (andM fl m), maskSelNp row (andM fx m),
+        maskSelNp m fl, maskSelNp m fx,
+        maskSelNp gflpidxs (andM fl m), maskSelNp gpidxs (andM fx m) with
   | .ok nFl, .ok nFx, .ok mFl, .ok mFx, .ok iFl, .ok iFx =>
-    match maskSel g mFl, maskSel gps.fixedVals mFx with
+    match maskSelNp g mFl, maskSelNp gps.fixedVals mFx with
     | .ok vFl, .ok vFx =>
       .ok (zip3 ((nFl ++ nFx).filterMap id) (vFl ++ vFx)
             (iFl.map (fun (i : Int) => i + 1) ++ iFx.map (fun (i : Int) => -i - 1)))
@@ -619,6 +625,87 @@ def srcParamsRecarray (s : PMM V) (g : List V) (sel : Option (List Nat)) :
   match srcRows s g fields (s.srcModelIdxs sel) with
   | .ok rows => .ok (fields, rows)
   | .error e => .error e
+
+/-! #### further read-only views of the mapper -/
+
+/-- `unique_model_param_names`: the local names used by any model (sorted by the harness) -/
+def modelFieldNames (s : PMM V) : List String := (s.mpn.flatten.filterMap id).eraseDups
+
+/-- the `<name>:gpidx` entry of a cell (`0` = the `np.zeros` default of a not applicable cell) -/
+def cellGpidx : Option (V × Int) → Int
+  | none => 0
+  | some (_, g) => g
+
+/-- a record array as returned by `srcParamsRecarray`: field names and rows -/
+abbrev RecArray (V : Type) := List String × List (Nat × List (Option (V × Int)))
+
+/-- the column `rec[f + ':gpidx']`; `none` = no such field -/
+def gpidxColumn (rec : RecArray V) (f : String) : Option (List Int) :=
+  match idxOf? f rec.1 with
+  | none => none
+  | some c => some (rec.2.map (fun r => match r.2[c]? with
+      | some cell => cellGpidx cell
+      | none => 0))
+
+/-- `is_global_fitparam_a_local_param(fitparam_id, params_recarray, local_param_names)`:
+names without a field are skipped, a name counts when some source has `gpidx == fitparam_id + 1`. -/
+def isGlobalFitparamALocalParam (k : Nat) (rec : RecArray V) (names : List String) : Bool :=
+  names.any (fun n => match gpidxColumn rec n with
+    | none => false
+    | some col => col.any (fun g => g == (k : Int) + 1))
+
+/-- `is_local_param_a_fitparam(local_param_name, params_recarray)`: `np.any(rec[name:gpidx] > 0)`;
+a missing field raises (numpy `ValueError: no field of name`). -/
+def isLocalParamAFitparam (n : String) (rec : RecArray V) : Except Err Bool :=
+  match gpidxColumn rec n with
+  | none => .error .valueError
+  | some col => .ok (col.any (fun g => decide (0 < g)))
+
+/-- column positions of the entries equal to `some n` in one alias row -/
+def whereAlias (n : String) : List (Option String) → Nat → List Nat
+  | [], _ => []
+  | r :: row, j => if r = some n then j :: whereAlias n row (j + 1) else whereAlias n row (j + 1)
+
+/-- `get_local_param_is_global_floating_param_mask(local_param_names)`:
+`gpidxs = unique(nonzero(mpn == name)[1])`, true when one of them is a floating global index. -/
+def localParamIsGlobalFloatingMask (s : PMM V) (names : List String) : List Bool :=
+  let flIdxs := whereTrue s.gps.floatMask 0
+  names.map (fun n =>
+    let gpidxs := (s.mpn.flatMap (fun row => whereAlias n row 0)).eraseDups
+    gpidxs.any (fun j => flIdxs.contains j))
+
+/-- `create_src_params_recarray(gflp_values=None)`: the floating values are filled with `nan` -/
+def srcParamsRecarrayNone (nan : V) (s : PMM V) (sel : Option (List Nat)) : Except Err (RecArray V) :=
+  s.srcParamsRecarray (List.replicate s.gps.floatNames.length nan) sel
+
+/-- `create_src_params_recarray(gflp, sources=<int32 ndarray>)`: the array is used as the list of
+*model* indices as it is (no source test, any order, repetitions allowed). -/
+def srcRowsIdx (s : PMM V) (g : List V) (fields : List String) :
+    List Nat → Except Err (List (Nat × List (Option (V × Int))))
+  | [] => .ok []
+  | i :: is =>
+    match s.mpn[i]? with
+    | none => .error .indexError
+    | some row =>
+      -- `recarray[name][i] = value` for a local name that is no field of the array raises
+      if (row.filterMap id).all (fun a => fields.contains a) then
+        match srcRow s g fields i, srcRowsIdx s g fields is with
+        | .ok r, .ok rs => .ok (r :: rs)
+        | .error e, _ => .error e
+        | _, .error e => .error e
+      else .error .valueError
+
+def srcParamsRecarrayIdx (s : PMM V) (g : List V) (idxs : List Nat) : Except Err (RecArray V) :=
+  if g.length ≠ s.gps.floatNames.length then .error .valueError else
+  match srcRowsIdx s g s.srcFieldNames idxs with
+  | .ok rows => .ok (s.srcFieldNames, rows)
+  | .error e => .error e
+
+/-- `create_model_params_dict(gflp, model=<name or Model object>)`: lookup by model name first -/
+def modelParamsDictByName (s : PMM V) (g : List V) (name : String) : Except Err (List (String × V)) :=
+  match modelIdxByName name s.models 0 with
+  | .error e => .error e
+  | .ok midx => s.modelParamsDict g midx
 
 end PMM
 
